@@ -458,8 +458,47 @@ func c02Predicates(w *World, r *Report, a *FsmA, cmpFn *ssa.Function) {
 			obB.Violate("ops-before-compare@"+FnName(fn), instrPos(p.Hit), "operations of the transaction can be applied before its predicates are evaluated", w.PathString(p)...)
 		}
 	}
-	// inside the helper every Get/NewIter goes through the reader parameter
+	// the compare helper's code: the function, its closures, and the fsm functions it hands a
+	// predicate to (the per-predicate arms as closures or as named functions), except the
+	// single-value comparison. Parameters of such a function read as the helper's arguments.
+	cmpScope := withClosures(cmpFn)
+	cmpAlias := map[ssa.Value]string{}
 	for _, f := range withClosures(cmpFn) {
+		eachInstr(f, func(in ssa.Instruction) {
+			c := plainCall(in)
+			if c == nil {
+				return
+			}
+			cal := StaticCallee(c)
+			if cal == nil || cal.Blocks == nil || !isFsmFunc(cal) || cal == cmpFn || len(c.Args) != len(cal.Params) {
+				return
+			}
+			if len(cal.Params) == 2 && typeIs(cal.Params[0].Type(), pbPkg, "Compare") {
+				return // the single-value comparison (operator table below)
+			}
+			takesCompare := false
+			for _, p := range cal.Params {
+				if typeIs(p.Type(), pbPkg, "Compare") {
+					takesCompare = true
+				}
+			}
+			if !takesCompare || len(w.CallersOf(cal)) != 1 {
+				return
+			}
+			for _, g := range cmpScope {
+				if g == cal {
+					return
+				}
+			}
+			for i, p := range cal.Params {
+				cmpAlias[p] = strings.TrimLeft(Expr(c.Args[i]), "^")
+			}
+			cmpScope = append(cmpScope, withClosures(cal)...)
+		})
+	}
+	cmpExpr := func(v ssa.Value) string { return (&ExprCtx{Alias: cmpAlias}).Expr(v) }
+	// inside the helper every Get/NewIter goes through the reader parameter
+	for _, f := range cmpScope {
 		eachInstr(f, func(in ssa.Instruction) {
 			c := callOf(in)
 			if c == nil {
@@ -471,7 +510,7 @@ func c02Predicates(w *World, r *Report, a *FsmA, cmpFn *ssa.Function) {
 					return
 				}
 				obB.Site(in.Pos(), "compare helper reads through "+Expr(c.Value))
-				root := strings.TrimLeft(Expr(c.Value), "^")
+				root := strings.TrimLeft(cmpExpr(c.Value), "^")
 				if !c.IsInvoke() || root != "$0" {
 					obB.Violate("compare-other-reader@"+FnName(f), in.Pos(), "the compare helper reads `"+Expr(c.Value)+"`, not the reader it was given")
 				}
@@ -483,7 +522,7 @@ func c02Predicates(w *World, r *Report, a *FsmA, cmpFn *ssa.Function) {
 	obC := r.Ob("C02.c", "c-predicate-semantics", "in the compare helper, from every 'failed' edge (single comparison false, First() false on the range, key not found / Get error, a term of the conjunction false) only `return false` is reachable; the operator table maps EQUAL/NOT_EQUAL/GREATER/LESS to bytes.Equal / !bytes.Equal / bytes.Compare(stored, given) == 1 / == -1 with the stored value as left operand", "otherwise a predicate on a missing key or empty range, or one failing key of a range, lets the success branch run; or the comparison is evaluated the wrong way round")
 	var single *ssa.Function
 	kinds := map[string]int{}
-	for _, f := range withClosures(cmpFn) {
+	for _, f := range cmpScope {
 		ctx := &ExprCtx{}
 		for _, b := range f.Blocks {
 			iff, isI := b.Instrs[len(b.Instrs)-1].(*ssa.If)
